@@ -124,6 +124,69 @@ void tw_handler(const y2::error_type& ev) {
     throw t;
 }
 
+// ---- custom rtti for the typed world: small integer ids, eager or deferred;
+// static_type can be made to throw during a registration (fault injection: a
+// run-time id registry that does not know the class yet)
+
+int g_tw_throw_in = -1;
+struct TwRttiThrow {};
+
+template<class T, class = void>
+struct tw_has_idx : std::false_type {};
+template<class T>
+struct tw_has_idx<T, std::void_t<decltype(Idx<T>::v)>> : std::true_type {};
+
+inline y2::type_id tw_dynamic_id(const std::type_info& t) {
+    static const std::type_info* tbl[NCLS] = {
+        &typeid(Animal), &typeid(Dog), &typeid(Cat), &typeid(Bulldog),
+        &typeid(Property), &typeid(Robot), &typeid(RoboDog), &typeid(VBase),
+        &typeid(VL), &typeid(VR), &typeid(VD)};
+    for (int i = 0; i < NCLS; ++i)
+        if (*tbl[i] == t)
+            return (y2::type_id)(i + 1);
+    return 0;
+}
+
+struct tw_rtti_impl {
+    template<class T>
+    static y2::type_id static_type() {
+        if (g_tw_throw_in >= 0 && g_tw_throw_in-- == 0)
+            throw TwRttiThrow{};
+        if constexpr (tw_has_idx<T>::value) {
+            return (y2::type_id)(Idx<T>::v + 1);
+        } else {
+            return 0;
+        }
+    }
+    template<class T>
+    static y2::type_id dynamic_type(const T& obj) {
+        if constexpr (std::is_polymorphic_v<T>) {
+            return tw_dynamic_id(typeid(obj));
+        } else {
+            return 0;
+        }
+    }
+    template<class Stream>
+    static void type_name(y2::type_id type, Stream& stream) {
+        stream << "tw(" << type << ")";
+    }
+    static y2::type_id type_index(y2::type_id type) {
+        return type;
+    }
+    template<typename D, typename B>
+    static D dynamic_cast_ref(B&& obj) {
+        return dynamic_cast<D>(obj);
+    }
+};
+struct tw_rtti : virtual y2::policy::rtti, tw_rtti_impl {
+    using tw_rtti_impl::type_index;
+    using tw_rtti_impl::type_name;
+};
+struct tw_rtti_deferred : virtual y2::policy::deferred_static_rtti, tw_rtti_impl {
+    using tw_rtti_impl::type_index;
+    using tw_rtti_impl::type_name;
+};
+
 // ---- a loadable registration object in zeroed static storage
 
 struct Item {
@@ -398,6 +461,19 @@ struct Lab {
         }
     };
 
+    // a second registration statement for a function that is already
+    // registered (documented as a no-op): constructing it must change nothing
+    template<class Adder>
+    static Item dup_item(const char* name, int original_item) {
+        Item it;
+        it.name = name;
+        it.kind = 3;
+        it.method = original_item;
+        it.load = &Slot<Adder>::load;
+        it.unload = &Slot<Adder>::unload;
+        return it;
+    }
+
     template<class M, class Adder>
     static Item def_item(const char* name, int method, std::vector<int> vp, int code, bool has_next = false) {
         Item it;
@@ -481,6 +557,12 @@ struct Lab {
         v.push_back(def_item<skick, typename skick::template add_function<skick_animal>>("skick(Animal)", 5, {cAnimal}, 602));
         v.push_back(def_item<mkick, typename mkick::template add_member_function<&Dog::member_kick>>("mkick(Dog::member_kick)", 6, {cDog}, 701));
         v.push_back(def_item<mkick, typename mkick::template add_member_function<&Bulldog::member_kick_bulldog>>("mkick(Bulldog::member_kick_bulldog)", 6, {cBulldog}, 702));
+        // kick(Cat)+next registered again, this time without naming its next
+        int original = -1;
+        for (int i = 0; i < (int)v.size(); ++i)
+            if (v[i].code == 105)
+                original = i;
+        v.push_back(dup_item<typename kick::template add_function<kick_cat_next::fn>>("kick(Cat) again, add_function without next", original));
         return v;
     }
 
@@ -680,6 +762,11 @@ using namespace y2::policy;
 struct tw_dbg : debug::rebind<tw_dbg> {};
 struct tw_rel : release::rebind<tw_rel> {};
 struct tw_ind : basic_policy<tw_ind, std_rtti, fast_perfect_hash<tw_ind>, vptr_vector<tw_ind>, basic_indirect_vptr<tw_ind>, vectored_error<tw_ind>> {};
+struct tw_ref : debug::rebind<tw_ref> {}; // reference flavour for C10
+// custom integer ids, known at registration time / only at update
+struct tw_cus : basic_policy<tw_cus, tw_rtti, vptr_vector<tw_cus>, vectored_error<tw_cus>> {};
+struct tw_dfr : basic_policy<tw_dfr, tw_rtti_deferred, vptr_vector<tw_dfr>, vectored_error<tw_dfr>> {};
+struct tw_dfh : basic_policy<tw_dfh, tw_rtti_deferred, checked_perfect_hash<tw_dfh>, vptr_vector<tw_dfh>, vectored_error<tw_dfh>> {};
 
 // ---- macro world: the keyword macros (register_classes, declare_method,
 // define_method with next) on a policy of their own, registered during static
@@ -762,6 +849,35 @@ struct TwExec {
     Hash h;
     std::uint64_t events = 0, calls = 0, updates = 0, loads = 0, unloads = 0;
     bool used_mi = false, used_vb = false, used_history = false;
+    std::uint64_t failed_loads = 0, dups = 0;
+
+    void check_catalog_sizes(const std::string& when) {
+        std::size_t ncls = 0, nmeth = 0;
+        for (int k : order) {
+            if (items[k].kind == RK_CLASS)
+                ncls += items[k].classes.size();
+            else if (items[k].kind == RK_METHOD)
+                ++nmeth;
+        }
+        std::size_t real = 0;
+        if (!P::classes.empty())
+            for (auto& c : P::classes) {
+                (void)c;
+                if (++real > 400)
+                    break;
+            }
+        if (real != ncls || P::classes.empty() != (ncls == 0))
+            fail("C18", "catalog-size", "class catalog has " + std::to_string(real) + " entries, " + std::to_string(ncls) + " are registered, " + when);
+        std::size_t realm = 0;
+        if (!P::methods.empty())
+            for (auto& m : P::methods) {
+                (void)m;
+                if (++realm > 100)
+                    break;
+            }
+        if (realm != nmeth)
+            fail("C18", "catalog-size", "method catalog has " + std::to_string(realm) + " entries, " + std::to_string(nmeth) + " are registered, " + when);
+    }
 
     TwExec() {
         loaded.assign(items.size(), 0);
@@ -867,10 +983,53 @@ struct TwExec {
                 continue;
             std::string op = ev.a[0].s;
             int k = ev.a.size() > 1 ? (int)ev.a[1].i() : -1;
+            if (op == "load_fail") {
+                // fault: the rtti facet throws during the registration of a
+                // class statement; nothing of it may stay registered
+                if (k < 0 || k >= n || loaded[k] || items[k].kind != RK_CLASS)
+                    continue;
+                int when = ev.a.size() > 2 ? (int)ev.a[2].i() : 0;
+                g_tw_throw_in = when;
+                bool threw = false;
+                try {
+                    items[k].load();
+                } catch (TwRttiThrow&) {
+                    threw = true;
+                }
+                g_tw_throw_in = -1;
+                if (!threw) {
+                    // the statement made fewer id look-ups: it is registered
+                    loaded[k] = 1;
+                    order.push_back(k);
+                    ++loads;
+                } else {
+                    ++failed_loads;
+                    check_catalog_sizes("after a registration that threw");
+                }
+                clean = false;
+                ++events;
+                h.str(op);
+                h.u64((std::uint64_t)(k + 1));
+                continue;
+            }
             if (op == "load") {
                 if (k < 0 || k >= n || loaded[k])
                     continue;
                 auto& it = items[k];
+                if (it.kind == 3) {
+                    // only while the original registration is loaded
+                    if (it.method < 0 || !loaded[it.method])
+                        continue;
+                    it.load();
+                    loaded[k] = 1;
+                    order.push_back(k);
+                    ++dups;
+                    clean = false;
+                    ++events;
+                    h.str(op);
+                    h.u64((std::uint64_t)(k + 1));
+                    continue;
+                }
                 if (it.kind == RK_DEF && !method_loaded(it.method))
                     continue; // a definition needs its method
                 if (it.kind == RK_METHOD && method_loaded(it.method))
@@ -884,6 +1043,12 @@ struct TwExec {
                 if (k < 0 || k >= n || !loaded[k])
                     continue;
                 auto& it = items[k];
+                bool has_dup = false;
+                for (int x : order)
+                    if (items[x].kind == 3 && items[x].method == k)
+                        has_dup = true;
+                if (has_dup)
+                    continue;
                 if (it.kind == RK_METHOD) {
                     bool has_defs = false;
                     for (int x : order)
@@ -929,10 +1094,7 @@ struct TwExec {
         snapshot(plan, reg, code_of_def);
         Lattice L = make_lattice(plan, reg);
         table.clear();
-        if (P::classes.size() != reg.classes.size())
-            fail("C18", "catalog-size", "class catalog size differs from the live registrations");
-        if (P::methods.size() != reg.methods.size())
-            fail("C18", "catalog-size", "method catalog size differs from the live registrations");
+        check_catalog_sizes("at a check");
         // each method's definition catalog: exactly the loaded definitions,
         // once each, in registration order
         for (int k : order) {
@@ -1055,11 +1217,13 @@ struct TwExec {
         if constexpr (P::template has_facet<runtime_checks>) {
             std::vector<y2::type_id>().swap(P::control);
         }
-        P::hash_mult = 0;
-        P::hash_shift = 0;
-        P::hash_length = 0;
-        P::hash_min = 0;
-        P::hash_max = 0;
+        if constexpr (P::template has_facet<type_hash>) {
+            P::hash_mult = 0;
+            P::hash_shift = 0;
+            P::hash_length = 0;
+            P::hash_min = 0;
+            P::hash_max = 0;
+        }
     }
 };
 
@@ -1122,6 +1286,30 @@ MiniOutcome tw_run_t(const J& c) {
                          "a catalog is not empty after every registration object was destroyed"});
         o.poisoned = true;
     }
+    // flavour differential (C10): the same history under the stock std_rtti
+    // debug policy must give the same outcome table
+    if (g_tw_focus == "C10" && !std::is_same_v<P, tw_ref> && final_clean && !hist_table.empty()) {
+        TwExec<tw_ref> ref;
+        std::vector<J> evs;
+        for (auto& ev : c.at("events").a)
+            if (!ev.a.empty() && ev.a[0].s != "load_fail")
+                evs.push_back(ev);
+        bool has_fail = evs.size() != c.at("events").a.size();
+        if (!has_fail) {
+            ref.run(evs);
+            for (auto& kv : hist_table) {
+                auto it = ref.table.find(kv.first);
+                if (it != ref.table.end() && it->second != kv.second) {
+                    viols.push_back({"C10", "flavour-diff",
+                                     kv.first + " gives " + kv.second + " under " + c.gets("policy", "") +
+                                         " and " + it->second + " under std_rtti"});
+                    break;
+                }
+            }
+            o.counters["flavour_differential_runs"] = 1;
+        }
+        ref.cleanup();
+    }
     std::uint64_t others = 0;
     for (auto& v : viols) {
         if (v.prop == g_tw_focus) {
@@ -1146,6 +1334,8 @@ MiniOutcome tw_run_t(const J& c) {
     o.counters["runs_with_multiple_inheritance_objects"] = ex.used_mi;
     o.counters["runs_with_virtual_base_objects"] = ex.used_vb;
     o.counters["runs_with_unload_after_update"] = ex.used_history;
+    o.counters["fault:registration_throws"] = ex.failed_loads;
+    o.counters["duplicate_registrations"] = ex.dups;
     o.counters["tw_other_property_observations"] = others;
     return o;
 }
@@ -1153,11 +1343,13 @@ MiniOutcome tw_run_t(const J& c) {
 J tw_gen(std::uint64_t seed, int tier, long) {
     Rng r(seed);
     J c = J::obj();
-    static const char* pols[] = {"tw_dbg", "tw_rel", "tw_ind"};
-    c.set("policy", pols[r.below(3)]);
+    static const char* pols[] = {"tw_dbg", "tw_rel", "tw_ind", "tw_cus", "tw_dfr", "tw_dfh"};
+    std::string pol = pols[r.below(6)];
+    c.set("policy", pol);
+    bool eager_custom = pol == "tw_cus";
     // which part of the menu this run may use (swarm)
     constexpr int CI_END = 25, M_END = 32; // class items, then methods, then definitions
-    int nitems = 54;
+    int nitems = 55; // the last one is the duplicate registration
     std::vector<int> enabled;
     double p = 0.35 + 0.5 * (r.below(100) / 100.0);
     for (int k = 0; k < nitems; ++k)
@@ -1197,6 +1389,8 @@ J tw_gen(std::uint64_t seed, int tier, long) {
         r.shuffle(defs);
         for (int k : defs)
             push("load", k);
+        if (r.chance(0.5))
+            push("load", nitems - 1); // the no-op duplicate registration
         push("update", -1);
         push("check", -1);
         // definitions whose classes are not registered keep the registry
@@ -1211,9 +1405,14 @@ J tw_gen(std::uint64_t seed, int tier, long) {
     for (int s = 0; s < steps && !enabled.empty(); ++s) {
         int what = (int)r.below(100);
         J e = J::arr();
-        if (what < 55) {
+        if (eager_custom && what < 6) {
+            // a class statement whose registration throws part-way
+            e.push("load_fail");
+            e.push((int)r.below(CI_END));
+            e.push((int)r.below(4));
+        } else if (what < 55) {
             e.push("load");
-            e.push(enabled[r.below(enabled.size())]);
+            e.push(r.chance(0.06) ? nitems - 1 : enabled[r.below(enabled.size())]);
         } else if (what < 72) {
             e.push("unload");
             e.push(enabled[r.below(enabled.size())]);
@@ -1241,6 +1440,12 @@ MiniOutcome tw_run(const J& c) {
         return tw_run_t<tw_rel>(c);
     if (p == "tw_ind")
         return tw_run_t<tw_ind>(c);
+    if (p == "tw_cus")
+        return tw_run_t<tw_cus>(c);
+    if (p == "tw_dfr")
+        return tw_run_t<tw_dfr>(c);
+    if (p == "tw_dfh")
+        return tw_run_t<tw_dfh>(c);
     return tw_run_t<tw_dbg>(c);
 }
 
